@@ -3,7 +3,6 @@ package sync
 import (
 	"errors"
 	"math"
-	rand "math/rand/v2"
 	"sort"
 	"sync"
 	"sync/atomic"
@@ -366,7 +365,7 @@ func (s *SvSync) getPeriodicTimeout() time.Duration {
 	jitter := s.periodicTimeout / 10
 	min := s.periodicTimeout - jitter
 	max := s.periodicTimeout + jitter
-	return time.Duration(rand.Int64N(int64(max-min))) + min
+	return time.Duration(jitterInt64N(int64(max-min))) + min
 }
 
 func (s *SvSync) getSuppressionTimeout() time.Duration {
@@ -375,7 +374,7 @@ func (s *SvSync) getSuppressionTimeout() time.Duration {
 	// [Spec] v = random(0, c)       // uniform random value
 	// [Spec] f = 10.0               // decay factor
 	c := float64(s.suppressionPeriod)
-	v := float64(rand.Int64N(int64(s.suppressionPeriod)))
+	v := float64(jitterInt64N(int64(s.suppressionPeriod)))
 	f := float64(10.0)
 
 	// [Spec] SuppressionTimeout = c * (1 - e^((v - c) / (c / f)))
